@@ -66,7 +66,7 @@ func C10(r *core.Run) {
 		Fails                             []c09Fail
 	}
 	spec := in{dir, r.Pick(1, 2), r.Pick(2, 3)}
-	if r.Degraded() {
+	if r.Degraded() || !inproc.ShimAvailable {
 		spec = in{dir, 1, 1}
 	}
 	outs, deaths := core.Parallel(r, "sweep", spec, r.Workers, func(in in, shard, n int, emit func(out)) {
